@@ -96,9 +96,33 @@ def rule_try_access(ctx, prog, eff):
            f"cur starts at addr [{cinit}] and advances by the SAME n via overflowing_add, accepted only when it did not overflow or wrapped exactly to 0 [{cupd_ok}]")
     # ---- returns
     seen = {}
+    from .. import outcomes as _oc
+    from ..mir import rels_of_bool
+    work = []
     for pos, t in b.return_terms():
         td = deep_strip(t)
-        facts = b.facts_at(pos)
+        facts = list(b.facts_at(pos))
+        # a combinator chain returned (or propagated with `?`) is read as its alternatives: `x.checked_add(n).ok_or(E)?` returns Err(E)
+        # on the overflow edge; `(total > 0).then_some(total).ok_or(E)` is {total > 0 => Ok(total), else Err(E)}
+        chain = error_passthrough(td)
+        alts = None
+        if chain is not None and deep_strip(chain) != ct and deep_strip(chain)[0] == 'call':
+            sub = _oc._combinators(prog, eff, b, pos, chain, 0)
+            if all(deep_strip(a[1])[0] == 'agg' for a in sub):
+                alts = [a for a in sub if deep_strip(a[1])[2] in ('Err', 'None')]
+        elif td[0] == 'call' and td != ct:
+            sub = _oc._combinators(prog, eff, b, pos, td, 0)
+            if len(sub) > 1 and all(deep_strip(a[1])[0] == 'agg' for a in sub):
+                alts = sub
+        if alts is None:
+            work.append((pos, td, facts))
+        else:
+            for a in alts:
+                fs = list(facts)
+                for r in a[2]:
+                    fs.extend(rels_of_bool(r[1], r[2]) if r[0] == 'bool' else [r])
+                work.append((pos, deep_strip(a[1]), fs))
+    for pos, td, facts in work:
         var, v = err_variant(td)
         if td == ct or error_passthrough(td) == ct:
             seen["passthrough"] = True  # `e => return e` / `f(..)?`
@@ -110,14 +134,14 @@ def rule_try_access(ctx, prog, eff):
                 any(r[0] == 'cmp' and r[1] == 'Ne' and r[3] == ('const', 0) for r in facts)
             seen[var] = okv
         elif var == "InvalidGuestAddress":
-            okv = unref(v[3][0])[:2] == ('param', 3) and any(r[0] == 'cmp' and r[1] == 'Eq' and unref(r[2]) == total and r[3] == ('const', 0) for r in facts)
+            okv = unref(v[3][0])[:2] == ('param', 3) and any(r[0] == 'cmp' and r[1] in ('Eq', 'Le') and unref(r[2]) == total and r[3] == ('const', 0) for r in facts)
             seen[var] = okv
         elif td[0] == 'agg' and td[2] == 'Ok':
             val = unref(td[3][0])
             if val == total:
                 if any(r[0] == 'cmp' and r[1] == 'Eq' and unref(r[2]) == unref(n) and r[3] == ('const', 0) for r in facts):
                     seen["ok0"] = True       # callback made no progress
-                elif any(r[0] == 'cmp' and r[1] == 'Ne' and unref(r[2]) == total and r[3] == ('const', 0) for r in facts):
+                elif any(r[0] == 'cmp' and r[1] in ('Ne', 'Gt') and unref(r[2]) == total and r[3] == ('const', 0) for r in facts):
                     seen["hole"] = True      # loop ended at a hole after progress
                 else:
                     seen["ok_other"] = False
